@@ -18,7 +18,10 @@ def conc_row(j):
     return r
 
 
-def probes(cid, writer, total, rng):
+OFF = 1000000   # second writer of a pair: rows OFF, OFF+1, ... (other tags, other value phase)
+
+
+def probes(cid, writer, total, rng, off=0):
     """QUERY/SCHEMA lines on dataset cid (count(tag=t)=1, count(tag=t AND col=val)=1, totals, group-by)."""
     lines = ["SCHEMA %s.sch %s %s" % (cid, cid, writer)]
     qn = 0
@@ -29,7 +32,7 @@ def probes(cid, writer, total, rng):
         lines.append("QUERY %s.q%d %s %s %s 0 %s GB %d%s" % (cid, qn, cid, writer, rng.choice(dp.MODES), dp.enc_expr(e), len(gb), "".join(" " + core.enc_str(c) for c in gb)))
     js = list(range(total)) if total <= 120 else sorted(rng.sample(range(total), 120))
     for j in js:
-        r = conc_row(j)
+        r = conc_row(j + off)
         q(dp.e_eq(b"tag", r[b"tag"]))
         q(("A", [dp.e_eq(b"tag", r[b"tag"])] + [dp.e_eq(c, v) for c, v in r.items() if c != b"tag"]), [b"c"])
     q(("O", [dp.e_eq(b"c", b"v%d" % k) for k in range(7)]), [b"c", b"d"])
@@ -49,11 +52,23 @@ def dynamic(rep, scratch, tier, seed, note=""):
                 if tier == "quick" and total in (999, 1001) and nth == 8:
                     continue
                 cases.append(("a%d_%s_%d" % (total, writer, nth), writer, nth, total))
+    cases = [c + (0,) for c in cases]
     ilines = []
-    for cid, writer, nth, total in cases:
+    for cid, writer, nth, total, off in cases:
         ilines.append("ADDROW %s %s %d %d" % (cid, writer, nth, total))
         ilines += probes(cid, writer, total, random.Random(total * 31 + nth))
         ilines.append("DROP " + cid)
+    # two writer instances filled at the same time (nothing may be shared between instances)
+    pairs = [("mem", "mem"), ("mem", "big"), ("big", "big")]
+    for pi, (wa, wb) in enumerate(pairs):
+        for total in ([600, 1500] if tier == "quick" else [100, 1000, 1001, 3000]):
+            nth = [2, 4, 8][pi % 3] if tier == "quick" else 4
+            a, b = "p%d_%d_a" % (pi, total), "p%d_%d_b" % (pi, total)
+            ilines.append("ADDROWPAIR %s %s %s %s %d %d %d" % (a, wa, b, wb, nth, total, OFF))
+            for cid, w, off in ((a, wa, 0), (b, wb, OFF)):
+                ilines += probes(cid, w, total, random.Random(total * 31 + nth), off)
+                ilines.append("DROP " + cid)
+                cases.append((cid, w, nth, total, off))
     path = scratch.path("c18.txt")
     with open(path, "w") as fh:
         fh.write("\n".join(ilines) + "\n")
@@ -74,7 +89,7 @@ def dynamic(rep, scratch, tier, seed, note=""):
         bad.append(("race", "%s%d data race report(s) / harness rc=%s during concurrent AddRow" % (note, races, rc), {"first_race_report": (m.group(0) if m else err[-1500:])[:3000]}))
     # model: the same rows inserted sequentially in id order
     mlines = []
-    for cid, writer, nth, total in cases:
+    for cid, writer, nth, total, off in cases:
         h = heads.get(cid)
         if h is None:
             continue
@@ -83,8 +98,8 @@ def dynamic(rep, scratch, tier, seed, note=""):
             continue
         ids = [int(x) for x in h[5:]]
         order = sorted(range(total), key=lambda j: ids[j])
-        ds = dp.Dataset(cid, [conc_row(j) for j in order], "conc")
-        mlines += ds.lines() + probes(cid, writer, total, random.Random(total * 31 + nth)) + ["DROP " + cid]
+        ds = dp.Dataset(cid, [conc_row(j + off) for j in order], "conc")
+        mlines += ds.lines() + probes(cid, writer, total, random.Random(total * 31 + nth), off) + ["DROP " + cid]
     mpath = scratch.path("c18-model.txt")
     with open(mpath, "w") as fh:
         fh.write("\n".join(mlines) + "\n")
@@ -106,7 +121,7 @@ def dynamic(rep, scratch, tier, seed, note=""):
         rep.violation("monitor:" + kind, msg, extra)
     rep.coverage.update({
         "evaluations": len(cases) + nq, "distinct_nontrivial": len(cases),
-        "rule": "row totals %s x {IndexWriter, BigIndexWriter} x goroutines {2,8,32} (thorough: 2..32), built with -race; returned ids must be a permutation of 0..n-1; the flushed index is compared with the model's index of the same rows in returned-id order: schema, count(tag=t)=1 and count(tag=t AND all its values)=1 for up to 120 rows, totals, group-by over two columns, group-by tag (exact membership) for n<=400. Non-trivial = concurrent cases." % totals,
+        "rule": "row totals %s x {IndexWriter, BigIndexWriter} x goroutines {2,8,32} (thorough: 2..32), and pairs of writer instances (mem/mem, mem/big, big/big) filled at the same time with different rows, built with -race; returned ids must be a permutation of 0..n-1; the flushed index is compared with the model's index of the same rows in returned-id order: schema, count(tag=t)=1 and count(tag=t AND all its values)=1 for up to 120 rows, totals, group-by over two columns, group-by tag (exact membership) for n<=400. Non-trivial = concurrent cases." % totals,
         "race_reports": races, "failures": len(bad), "samples": [" ".join(heads[cases[0][0]][:12]) if cases and cases[0][0] in heads else ""],
     })
     return len(bad)
@@ -125,5 +140,5 @@ def run(rep, scratch, tier, seed, replay=None):
                 break
         if nbad == 0:
             rep.violation("obligation", "the generated lock obligation of C18 no longer checks (coq/obligations/ObC18.v against the skeletons of AddRow in the working tree); the race stress found no failing schedule",
-                          {"broken": "C18_locks_mem / C18_locks_big", "coqc_output": ob["output"][-2500:]}, no_input=True)
+                          {"broken": "C18_locks_mem / C18_locks_big", "unknown_to_policy": ob.get("unknown_to_policy", ""), "coqc_output": ob["output"][-2500:]}, no_input=True)
     rep.assumptions += ["the lock policy is hand-written; the translator is syntactic", "bbolt transactions used by the big writer are only touched under the writer mutex (checked by the policy)"]
